@@ -12,15 +12,47 @@ thread_local! {
     static IN_HOOK: Cell<bool> = const { Cell::new(false) };
     static HITS: RefCell<Vec<String>> = const { RefCell::new(Vec::new()) };
     static DEV: RefCell<Option<crate::dev::DevRc>> = const { RefCell::new(None) };
+    /// One-shot allocation failure: the next allocation of exactly this (size, alignment) on this
+    /// thread returns null.
+    static FAIL_NEXT: Cell<Option<(usize, usize)>> = const { Cell::new(None) };
+}
+
+/// Makes the next heap allocation of exactly `size` bytes with alignment `align` on this thread
+/// fail (once).
+pub fn fail_next(size: usize, align: usize) {
+    FAIL_NEXT.with(|f| f.set(Some((size, align))));
+}
+
+/// Disarms the one-shot failure; returns true if it was still pending (it never fired).
+pub fn take_fail_next() -> bool {
+    FAIL_NEXT.with(|f| f.take()).is_some()
+}
+
+fn should_fail(layout: &Layout) -> bool {
+    FAIL_NEXT
+        .try_with(|f| match f.get() {
+            Some((s, a)) if s == layout.size() && a == layout.align() => {
+                f.set(None);
+                true
+            }
+            _ => false,
+        })
+        .unwrap_or(false)
 }
 
 // SAFETY: delegates to the system allocator; the hook only observes.
 unsafe impl GlobalAlloc for WatchAlloc {
     unsafe fn alloc(&self, layout: Layout) -> *mut u8 {
+        if should_fail(&layout) {
+            return std::ptr::null_mut();
+        }
         // SAFETY: forwarded.
         unsafe { System.alloc(layout) }
     }
     unsafe fn alloc_zeroed(&self, layout: Layout) -> *mut u8 {
+        if should_fail(&layout) {
+            return std::ptr::null_mut();
+        }
         // SAFETY: forwarded.
         unsafe { System.alloc_zeroed(layout) }
     }
